@@ -99,9 +99,114 @@ class Aliasing(Suite):
         return repr(case)
 
 
+class ContextReuse(Suite):
+    """a caller keeps context objects (dicts with global and per-namespace entries, nested values, placeholders) and
+    builds several chains from them, singly and in lists, with different global_vars, mutating the values the
+    tasks received in between: every chain is configured as the chain built alone from fresh copies of the same
+    contexts, and the caller's objects still hold what the caller put there.  Runtime check only."""
+    name = 'context_reuse'
+    model = ''
+    VALUES = [5, 'plain', '{X}/f', ['{X}', 1], {'k': ['a{X}', 2]}, [[1], {'d': '{Y}'}], {'m': {'n': [1, 2]}}, [], None, 0]
+
+    def corpus(self):
+        a = {'p': [1], 'for_namespaces': {'n': {'p': {'k': ['{X}/f', 1]}, 'q': [1, 2]}}}
+        b = {'q': 'b', 'for_namespaces': {'n': {'p': {'k': ['other']}, 'q': ['{X}']}}}
+        return [dict(ctxs=[a, b], builds=[dict(use=[0, 1], gv={'X': 'one'}), dict(use=[0], gv={'X': 'two'}),
+                                          dict(use=[1, 0], gv=None), dict(use=[0], gv={'X': 'one'})], form='dict'),
+                dict(ctxs=[a, b], builds=[dict(use=[0], gv={'X': 'one'}), dict(use=[0], gv={'X': 'two'})], form='object'),
+                dict(ctxs=[a, b], builds=[dict(use=[0, 1], gv=None), dict(use=[0], gv=None)], form='object')]
+
+    def gen(self, rng, tier):
+        out = []
+        for _ in range(40 if tier == 'quick' else 600):
+            ctxs = []
+            for _i in range(rng.choice([2, 3])):
+                c = {k: copy.deepcopy(rng.choice(self.VALUES)) for k in ('p', 'q') if rng.random() < 0.5}
+                fn = {}
+                for ns in ('n', 'm'):
+                    if rng.random() < 0.7:
+                        fn[ns] = {k: copy.deepcopy(rng.choice(self.VALUES)) for k in ('p', 'q') if rng.random() < 0.7}
+                if fn:
+                    c['for_namespaces'] = fn
+                ctxs.append(c)
+            builds = []
+            for _i in range(rng.choice([2, 3, 4])):
+                use = rng.sample(range(len(ctxs)), rng.choice([1, 1, 2, len(ctxs)]))
+                builds.append(dict(use=use, gv=rng.choice([None, {'X': 'one', 'Y': 'y1'}, {'X': 'two'}])))
+            out.append(dict(ctxs=ctxs, builds=builds, form=rng.choice(['dict', 'dict', 'object'])))
+        return out
+
+    def run_impl(self, case):
+        from pathlib import Path
+        from taskchain import Config
+        from taskchain.config import Context
+        from ..suites_chain import K, P
+        classes = [dict(K(0, 'Src', params=[P('p', default=[-1]), P('q', default=[-2])]), name='src')]
+        with pl.workspace(dict(classes=classes, files={'pipe.json': {'tasks': ['@M.*']}})) as (d, mod):
+            def make(ctx_specs):
+                cs = [copy.deepcopy(c) for c in ctx_specs]
+                return [Context(data=c, name=f'ctx{i}') for i, c in enumerate(cs)] if case['form'] == 'object' else cs
+
+            def build(ctxs, b):
+                arg = [ctxs[i] for i in b['use']]
+                cfg = Config(Path('data'), name='main', data={'uses': ['pipe.json as n', 'pipe.json as m'], 'tasks': [f'{mod}.Src']},
+                             context=arg[0] if len(arg) == 1 else arg, global_vars=copy.deepcopy(b['gv']))
+                ch = cfg.chain()
+                return ch, {n: {'params': {k: pl.to_spec(v) for k, v in t.params.items()}, 'value': pl.to_spec(t.value)}
+                            for n, t in ch.tasks.items()}
+
+            def state(ctxs):
+                if case['form'] == 'object':
+                    return [pl.to_spec({'data': c.data, 'for_namespaces': dict(c.for_namespaces)}) for c in ctxs]
+                return [pl.to_spec(c) for c in ctxs]
+
+            def scribble(v):
+                if isinstance(v, list):
+                    for x in v:
+                        scribble(x)
+                    v.append('SCRIBBLE')
+                elif isinstance(v, dict):
+                    for x in list(v.values()):
+                        scribble(x)
+                    v['SCRIBBLE'] = 1
+
+            kept = make(case['ctxs'])
+            before = copy.deepcopy(state(kept))
+            seq, alone, chains = [], [], []
+            for b in case['builds']:
+                ch, got = build(kept, b)
+                seq.append(copy.deepcopy(got))
+                chains.append(ch)
+                for t in ch.tasks.values():       # the caller's tasks modify what they were given
+                    for v in t.params.values():
+                        scribble(v)
+            for b in case['builds']:
+                alone.append(build(make(case['ctxs']), b)[1])
+            return dict(seq=seq, alone=alone, before=before, after=state(kept))
+
+    def oracle(self, case, obs):
+        if 'unexpected_exception' in obs:
+            return f'unexpected exception {obs["unexpected_exception"]}: {obs["text"]}'
+        for i, (a, b) in enumerate(zip(obs['seq'], obs['alone'])):
+            if repr(a) != repr(b):
+                t = next(n for n in b if repr(a.get(n)) != repr(b[n]))
+                return (f'build {i} ({case["builds"][i]}) after the earlier builds gives {t} the parameters {a.get(t, {}).get("params")} '
+                        f'and the value {a.get(t, {}).get("value")}; built alone from fresh copies of the same contexts it gets '
+                        f'{b[t]["params"]} and {b[t]["value"]}')
+        if repr(obs['before']) != repr(obs['after']):
+            return f'the caller\'s context objects changed: {obs["before"]} -> {obs["after"]}'
+        return None
+
+    def nontrivial(self, case, obs):
+        return len(case['builds']) >= 2
+
+    def key(self, case):
+        return repr(case)
+
+
 class C09(Prop):
     pid = 'C09'
-    suites = [Params(), Aliasing()]
+    suites = [Params(), Aliasing(), ContextReuse()]
     trusted_base = ['"share no mutable values" is a heap property with no meaning in the functional model: it is '
                     'checked by the harness only (object identities, mutation after construction)']
     assumptions = ['contexts are well formed mappings (unique keys, unique namespaces); multi-config parts and nested '
